@@ -59,6 +59,7 @@ Consistent(kind, b) ==
       [] kind = "analog" -> Len(b) >= 16
       [] kind = "cm"     -> Len(b) >= 26 /\ CmFields(b).ok
       [] kind = "if"     -> Len(b) >= 36 /\ IfFields(b).ok
+      [] kind = "tecmpLin" -> Len(b) >= 2 /\ At(b, 1) <= Len(b) - 2       \* TECMP LIN data: protected id, data length, data
       [] OTHER -> TRUE
 
 (* bus-error indication that makes a payload invalid (CAN, CAN-FD: flag      *)
@@ -134,6 +135,7 @@ RenderData(kind, hdr, data) ==          \* hdr: the object's header bytes before
       [] kind = "lin"    -> SubSeq(hdr, 1, 7) \o << Len(data) >> \o data
       [] kind = "eth"    -> SubSeq(hdr, 1, 4) \o BE16(Len(data)) \o data
       [] kind = "analog" -> SubSeq(hdr, 1, 16) \o data
+      [] kind = "tecmpLin" -> SubSeq(hdr, 1, 1) \o << Len(data) >> \o data
 
 RenderCm(hdr, desc, serial, hw, sw, vendor) ==
     SubSeq(hdr, 1, 26) \o StrField(desc) \o StrField(serial) \o StrField(hw) \o StrField(sw)
